@@ -189,10 +189,15 @@ def run(ctx):
                    ("numpy.subtract(v, w)", lambda a, b, k: numpy.subtract(a, b), False), ("numpy.multiply(v, k)", lambda a, b, k: numpy.multiply(a, k), False),
                    ("numpy.true_divide(v, k)", lambda a, b, k: numpy.true_divide(a, k), False), ("numpy.negative(v)", lambda a, b, k: numpy.negative(a), False),
                    ("numpy.matmul(v, w)", lambda a, b, k: numpy.matmul(a, b), False), ("v @ w", lambda a, b, k: a @ b, False),
+                   # exact SymPy numbers of known (negative) sign as scale factors: the numeric twin gets the same number
+                   ("v * Rational(-3, 2)", lambda a, b, k: a * (sympy.Rational(-3, 2) if type(a).__module__.endswith("sympy") else mp.mpf("-1.5")), False),
+                   ("Integer(-2) * v", lambda a, b, k: (sympy.Integer(-2) if type(a).__module__.endswith("sympy") else mp.mpf("-2")) * a, False),
+                   ("v / Float(-1.75)", lambda a, b, k: a / (sympy.Float("-1.75", 50) if type(a).__module__.endswith("sympy") else mp.mpf("-1.75")), False),
+                   ("v.scale(-pi)", lambda a, b, k: a.scale(-sympy.pi if type(a).__module__.endswith("sympy") else -mp.pi), False),
                    ("v += w", lambda a, b, k: a.__iadd__(b), True), ("v -= w", lambda a, b, k: a.__isub__(b), True),
                    ("v *= k", lambda a, b, k: a.__imul__(k), True), ("v /= k", lambda a, b, k: a.__itruediv__(k), True)]
             for name, f, inplace in ops:
-                if sig[-1] == "tau" and name in ("v - w", "v -= w", "-v", "numpy.subtract(v, w)", "numpy.negative(v)"):
+                if sig[-1] == "tau" and name in ("v - w", "v -= w", "-v", "numpy.subtract(v, w)", "numpy.negative(v)", "v * Rational(-3, 2)", "Integer(-2) * v", "v / Float(-1.75)", "v.scale(-pi)"):
                     continue            # exact result not representable with tau >= 0
                 n += 1
                 try:
